@@ -214,12 +214,6 @@ Proof. exact rom_monotone. Qed.
 (* examples: the sample document meets the hypotheses                      *)
 (* ====================================================================== *)
 
-Definition ex_sections_body : list stmt :=
-  match add_all_segments ex_rt ex_settings cfg_normal (doc_vram_classes ex_doc) (doc_segments ex_doc) ws0 with
-  | Ok ([SSections body], _) => body
-  | _ => []
-  end.
-
 (* every ROM symbol of every emitted segment is assigned exactly once in the SECTIONS body *)
 Example ex_rom_names_distinct :
   forallb (fun seg => rom_names_distinct Splat (sg_name seg) ex_sections_body)
@@ -232,16 +226,6 @@ Proof. vm_compute. repeat constructor; simpl; intuition discriminate. Qed.
 
 (* a full link of the sample script against a small set of objects ends without error, and the ROM
    symbols have the chained values: boot occupies [0, 68), ovl_a starts at align_up 68 16 = 80 *)
-Definition ex_universe : list usec :=
-  [USec "build/src/boot.o" None ".text" 40 16 false "boot_text";
-   USec "build/src/boot.o" None ".data" 12 8 false "boot_data";
-   USec "build/src/boot.o" None ".bss" 100 8 true "boot_bss";
-   USec "build/src/a.o" None ".text" 24 4 false "a_text";
-   USec "build/src/a.o" None ".bss" 8 4 true "a_bss"].
-
-Definition ex_script : list stmt :=
-  match gen_normal ex_doc ex_rt with Ok w => wo_script w | Err _ => [] end.
-
 Example ex_link_rom :
   let st := layout ex_script ex_universe [("main", 5)] in
   l_errors st = [] /\
